@@ -130,6 +130,9 @@ void run_c08(const std::vector<std::vector<std::string>>& cases, vt::Rng& rng)
       p.mb.mh = rng.coin() ? rng.logu(10, 300) : (rng.below(8) == 0 ? 0.0 : 125.0);
       p.mb.mH = p.mb.mh + rng.logu(1, 5000);
       p.mb.mA = rng.logu(10, 1e4); p.mb.mHp = rng.logu(10, 1e4);
+      // the Goldstone modes are told from the physical states by their masses: physical states around MW and MZ
+      if (rng.below(4) == 0) p.mb.mA = rng.uni(0.6, 1.3) * p.sm.get_mz();
+      if (rng.below(4) == 0) p.mb.mHp = rng.uni(0.6, 1.3) * p.sm.get_mw();
       p.mb.m122 = rng.sign() * rng.logu(1, 1e7);
       if (c.at(4) == "complex") p.sm.set_ckm_from_wolfenstein(rng.uni(0.1, 0.4), rng.uni(0.5, 1.0), rng.uni(-0.3, 0.3), rng.uni(0.1, 0.5));
       else p.sm.set_ckm_from_wolfenstein(rng.uni(0.1, 0.4), rng.uni(0.5, 1.0), rng.uni(-0.3, 0.3), 0.0);
